@@ -23,6 +23,7 @@ package main
 //                    suppression list in between), under their own keys
 //   reuse-order      a reused spec with RandomizeTransportParameters sends a fresh order
 //                    (three dials of >= 6 parameters never all show the same order)
+//   randomize-noop   with RandomizeTransportParameters the order is not always the spec's own
 //   hello-vs-utls    the ClientHello equals what uTLS marshals for the same spec, field by
 //                    field (random, key material and GREASE draws masked)
 //   perm-coverage / perm-chi2   distribution support for small lists
@@ -248,6 +249,15 @@ func fpSnapshot(ext *tls.QUICTransportParametersExtension) []fpParam {
 		out = append(out, fpParam{tp.ID(), append([]byte{}, tp.Value()...)})
 	}
 	return out
+}
+
+// fpSortSpec puts the spec's parameters into ascending id order, so that any variation of the
+// wire order can only come from the dial-time shuffle (the built-in parrots already shuffle
+// when the spec is built).
+func fpSortSpec(ext *tls.QUICTransportParametersExtension) {
+	sort.SliceStable(ext.TransportParameters, func(i, j int) bool {
+		return ext.TransportParameters[i].ID() < ext.TransportParameters[j].ID()
+	})
 }
 
 func fpIsVersionInfo(id uint64) bool { return id == 0x11 || id == 0xff73db }
@@ -677,6 +687,7 @@ func runSimFingerprint(w *bufio.Writer, seed uint64, n int, args []string) {
 		firstOf := map[string]*fpObs{}
 		frameSets := map[string]int{}
 		orders := map[string]int{}
+		nOracle := 0
 		for i := 0; i < n; i++ {
 			sp, err := specFor(name)
 			if err != nil {
@@ -700,6 +711,7 @@ func runSimFingerprint(w *bufio.Writer, seed uint64, n int, args []string) {
 			}
 			orders[strings.Join(ord, ",")]++
 			if i < 12 || r.Chance(1, 8) { // claim (a): uTLS as oracle
+				nOracle++
 				oraw, err := fpUTLSHello(sp.ClientHelloSpec, "localhost")
 				if err != nil {
 					rep.fail(k+"hello-vs-utls", "uTLS oracle failed: "+err.Error(), c.String())
@@ -718,7 +730,7 @@ func runSimFingerprint(w *bufio.Writer, seed uint64, n int, args []string) {
 			idList = append(idList, fmt.Sprintf("%s x%d frames=%s gci=%s ch=%s tp=%s", h, c, firstOf[h].FrameSet, firstOf[h].GciID, firstOf[h].ChID, firstOf[h].TpID))
 		}
 		sort.Strings(idList)
-		fmt.Fprintf(w, "INFO\t%s: %d dials, recorded=%s, ids: %s; frame-type sets %v; %d distinct parameter orders\n", name, n, id.Fingerprint, strings.Join(idList, " ; "), frameSets, len(orders))
+		fmt.Fprintf(w, "INFO\t%s: %d dials, recorded=%s, ids: %s; frame-type sets %v; %d distinct parameter orders; %d ClientHellos compared with uTLS's marshalling\n", name, n, id.Fingerprint, strings.Join(idList, " ; "), frameSets, len(orders), nOracle)
 		fmt.Fprintf(w, "CASE 1 fingerprint quicid=%s dials=%d seed=%d\n", name, n, seed)
 		if len(ids) > 1 {
 			rep.fail(k+"id-unstable", fmt.Sprintf("the reference fingerprint id is not the same on every dial: %d different ids in %d dials", len(ids), n), strings.Join(idList, " ; "))
@@ -738,12 +750,16 @@ func runSimFingerprint(w *bufio.Writer, seed uint64, n int, args []string) {
 		if nb < 6 {
 			nb = 6
 		}
+		nRand, nRandSame := 0, 0
 		for i := 0; i < nb; i++ {
 			sp, err := specFor(name)
 			if err != nil {
 				break
 			}
 			ext := fpSpecExt(sp)
+			if i%2 == 0 {
+				fpSortSpec(ext) // a spec written in a fixed order
+			}
 			pre := fpSnapshot(ext)
 			c := fpDialCfg{Name: name, Randomize: r.Chance(2, 3), IDsBefore: r.Bool()}
 			// suppression subset: ids of the list (never initial_source_connection_id: a
@@ -793,11 +809,24 @@ func runSimFingerprint(w *bufio.Writer, seed uint64, n int, args []string) {
 				}
 				nparams = len(ord)
 				seenOrders[strings.Join(ord, ",")] = true
+				if d == 0 && c.Randomize && nparams >= 6 { // is the order the spec's own order?
+					var specOrd []string
+					for _, p := range fpExpected(pre, c.Suppress, o.SCID) {
+						specOrd = append(specOrd, fmt.Sprintf("%x", p.ID))
+					}
+					nRand++
+					if strings.Join(specOrd, ",") == strings.Join(ord, ",") {
+						nRandSame++
+					}
+				}
 			}
 			fmt.Fprintf(w, "CASE 1 derived %s redials=%d\n", c.String(), redials)
 			if c.Randomize && redials == 3 && nparams >= 6 && len(seenOrders) == 1 {
 				rep.fail(k+"reuse-order", "three dials of one spec with RandomizeTransportParameters sent the same parameter order (6 or more parameters)", c.String())
 			}
+		}
+		if nRand >= 3 && nRandSame == nRand {
+			rep.fail(k+"randomize-noop", fmt.Sprintf("RandomizeTransportParameters: all %d first dials (6 or more parameters) sent the spec's own order", nRand), name)
 		}
 	}
 	fpDistribution(w, r, rep, n)
@@ -819,6 +848,7 @@ func fpDistribution(w *bufio.Writer, r *u.Rng, rep *fpReporter, n int) {
 		if err != nil {
 			return
 		}
+		fpSortSpec(fpSpecExt(sp))
 		pre := fpSnapshot(fpSpecExt(sp))
 		c := fpDialCfg{Name: name, Randomize: true}
 		for _, p := range pre {
